@@ -116,6 +116,8 @@ mod serializer;
 mod unit;
 mod utils;
 mod value;
+#[cfg(feature = "verif")]
+pub mod verif;
 
 fn raw_to_parse_error(map: &CodeMap, err: Error, unicode: bool) -> Box<Error> {
     let (message, span) = err.raw();
